@@ -9,9 +9,9 @@ open Req.Proto
 
 /-! ### the lazy readers satisfy the law when the codec does -/
 
-def lazyReader (C : Codec) : Reader where
+def lazyReader (C : Codec) (keep : Bool) : Reader where
   σ := LazyState C
-  read := lazyRead C
+  read := lazyRead C keep
   rest := lazyRest C
   read_len := by
     intro st n
@@ -32,14 +32,16 @@ def lazyReader (C : Codec) : Reader where
       split
       · rename_i s hi
         intro h
-        simp only [lazyRest, hz, hi]
+        simp only at h
+        simp only [lazyRest, hz, hi, h, ite_self]
         exact C.read_none s n h
       · rename_i hi
         split
         · simp
         · rename_i s ho
           intro h
-          simp only [lazyRest, hz, hi, Codec.total, ho]
+          simp only at h
+          simp only [lazyRest, hz, hi, Codec.total, ho, h, ite_self]
           exact C.read_none s n h
   read_some := by
     intro st n t
@@ -52,8 +54,11 @@ def lazyReader (C : Codec) : Reader where
       split
       · rename_i s hi
         intro h
-        simp only [lazyRest, hz, hi]
-        exact C.read_some s n t h
+        simp only at h
+        have := C.read_some s n t h
+        cases keep
+        · simp only [lazyRest, hz, hi, Bool.false_eq_true, if_false]; exact this
+        · simp only [lazyRest, hz, hi, h, if_true]; exact ⟨this.1, trivial⟩
       · rename_i hi
         split
         · rename_i e ho
@@ -61,8 +66,11 @@ def lazyReader (C : Codec) : Reader where
           simp [lazyRest, hz, hi, Codec.total, ho]
         · rename_i s ho
           intro h
-          simp only [lazyRest, hz, hi, Codec.total, ho]
-          exact C.read_some s n t h
+          simp only at h
+          have := C.read_some s n t h
+          cases keep
+          · simp only [lazyRest, hz, hi, Codec.total, ho, Bool.false_eq_true, if_false]; exact this
+          · simp only [lazyRest, hz, hi, Codec.total, ho, h, if_true]; exact ⟨this.1, trivial⟩
   read_progress := by
     intro st n hn
     unfold lazyRead
